@@ -12,7 +12,7 @@
 use std::cell::{Cell, RefCell};
 use std::sync::Arc;
 
-use ckb_types::{packed, prelude::*};
+use ckb_types::{packed, packed::Byte32, prelude::*};
 use serde_json::json;
 
 use crate::storage::ScriptType;
@@ -175,6 +175,9 @@ pub(crate) struct Item {
     set: usize,
     rewind: u8,
     slow: bool,
+    /// the new branch commits the transactions of the abandoned blocks again (one block later than
+    /// the old branch did, as a reorganising node's pool would), and spends their outputs later
+    recommit: bool,
 }
 
 fn chains(env: &Env, item: &Item) -> (Chain, Chain, u64) {
@@ -212,6 +215,32 @@ fn chains(env: &Env, item: &Item) -> (Chain, Chain, u64) {
             new_acts.push((n, Act::Mine('B')));
         }
     }
+    if item.recommit {
+        // every transaction of an abandoned block whose inputs are still there on the new branch
+        // (created on the trunk or by a transaction committed again before) is committed again, one
+        // block later than on the old branch; its output is spent in the block after that
+        let mut known: std::collections::HashSet<Byte32> = old.blocks[..=fork_at as usize]
+            .iter()
+            .flat_map(|b| b.transactions().into_iter().map(|t| t.hash()))
+            .collect();
+        for n in (fork_at + 1)..=l {
+            for tx in old.blocks[n as usize].transactions().into_iter().skip(1) {
+                let resolvable = tx.input_pts_iter().all(|op| known.contains(&op.tx_hash()));
+                if !resolvable || n + 1 > new_tip {
+                    continue;
+                }
+                known.insert(tx.hash());
+                let out = tx.output(0).expect("output 0");
+                let owner = ['A', 'B', 'C'].into_iter().find(|c| env.scripts.by_name(*c) == out.lock()).unwrap_or('A');
+                let cap: u64 = out.capacity().unpack();
+                let typed = out.type_().to_opt().is_some();
+                new_acts.push((n + 1, Act::Raw(tx.clone(), if typed { 'Z' } else { owner }, cap)));
+                if !typed && n + 2 <= new_tip {
+                    new_acts.push((n + 2, Act::Move(owner, if owner == 'A' { 'B' } else { 'A' })));
+                }
+            }
+        }
+    }
     scen::extend_chain(&mut new, &env.scripts, new_tip, &new_acts);
     (old, new, new_tip)
 }
@@ -225,17 +254,21 @@ pub(crate) fn run(opts: &Opts, report: &mut Report) {
             // probability; last-N+6 exercises the sampled path with a lower one)
             for growth in if thorough { (1..=(last_n + 2)).chain([last_n + 6]).collect::<Vec<_>>() } else { vec![1, last_n, last_n + 2, last_n + 6] } {
                 for set in if thorough { vec![0usize, 1, 2, 3] } else { vec![1usize, 3] } {
-                    items.push(Item { last_n, depth, growth, set, rewind: 0, slow: false });
+                    items.push(Item { last_n, depth, growth, set, rewind: 0, slow: false, recommit: false });
+                    // the new branch commits the abandoned transactions again (shallow forks)
+                    if depth <= last_n && growth >= 2 && (thorough || set == 1) {
+                        items.push(Item { last_n, depth, growth, set, rewind: 0, slow: false, recommit: true });
+                    }
                     // the same with a set_scripts that rewinds filter syncing right before the
                     // switch after the full sync (shallow forks, one script set; thorough: all)
                     // slow block bodies (shallow forks): bodies requested on the old branch arrive
                     // after the proof of the new one
                     if depth <= last_n && (thorough || set == 1) {
-                        items.push(Item { last_n, depth, growth, set, rewind: 0, slow: true });
+                        items.push(Item { last_n, depth, growth, set, rewind: 0, slow: true, recommit: false });
                     }
                     if depth <= last_n && (thorough || set == 1) {
-                        items.push(Item { last_n, depth, growth, set, rewind: 1, slow: false });
-                        items.push(Item { last_n, depth, growth, set, rewind: 2, slow: false });
+                        items.push(Item { last_n, depth, growth, set, rewind: 1, slow: false, recommit: false });
+                        items.push(Item { last_n, depth, growth, set, rewind: 2, slow: false, recommit: false });
                     }
                 }
             }
@@ -253,7 +286,7 @@ pub(crate) fn run(opts: &Opts, report: &mut Report) {
             2 => vec![Reg { script: s.b.clone(), is_lock: true, start: 0 }, Reg { script: s.a.clone(), is_lock: true, start: 6 }],
             _ => vec![Reg { script: s.t.clone(), is_lock: false, start: 0 }, Reg { script: s.b.clone(), is_lock: true, start: 0 }],
         };
-        let name = format!("lastN{}/depth{}/growth{}/set{}{}", item.last_n, item.depth, item.growth, item.set, format!("{}{}", ["", "/rewind", "/registered-again"][item.rewind as usize], if item.slow { "/slow-blocks" } else { "" }));
+        let name = format!("lastN{}/depth{}/growth{}/set{}{}", item.last_n, item.depth, item.growth, item.set, format!("{}{}", ["", "/rewind", "/registered-again"][item.rewind as usize], if item.slow { "/slow-blocks" } else if item.recommit { "/recommit" } else { "" }));
         let sc = ForkScenario {
             env: &env,
             name: name.clone(),
@@ -398,7 +431,7 @@ pub(crate) fn run(opts: &Opts, report: &mut Report) {
 
 pub(crate) fn debug_case() {
     let env = Env::dummy();
-    let item = Item { last_n: 2, depth: 1, growth: 4, set: 0, rewind: 0, slow: false };
+    let item = Item { last_n: 2, depth: 1, growth: 4, set: 0, rewind: 0, slow: false, recommit: false };
     let (old, new, new_tip) = chains(&env, &item);
     let s = &env.scripts;
     let regs = vec![Reg { script: s.a.clone(), is_lock: true, start: 0 }];
@@ -426,7 +459,7 @@ pub(crate) fn debug_case() {
 
 /// The fork scenario for other checks (C08): full sync of the old branch, then the switch.
 pub(crate) fn scenario<'a>(env: &'a Env, last_n: u64, depth: u64, growth: u64, set: usize) -> (ForkScenario<'a>, Vec<Reg>) {
-    let item = Item { last_n, depth, growth, set, rewind: 0, slow: false };
+    let item = Item { last_n, depth, growth, set, rewind: 0, slow: false, recommit: std::env::var("C04_RECOMMIT").is_ok() };
     let (old, new, new_tip) = chains(env, &item);
     let s = &env.scripts;
     let regs: Vec<Reg> = match set {
